@@ -33,20 +33,27 @@ func main() {
 	supi := "imsi-" + c.IMSI
 
 	if mode == "probe" {
-		// direct state probe of the key derivation for algorithm identifiers that cannot complete a registration
-		ue := tglib.NewRanUeContext(supi, 1, nea, nia)
-		ue.AuthenticationSubs = tglib.GetAuthSubscription(c.K, c.OPC, c.OP)
-		rnd, _ := hex.DecodeString(s.Rig["rand"].(string))
-		autnB, _ := hex.DecodeString(s.Rig["autn"].(string))
-		var autn [16]byte
-		copy(autn[:], autnB)
-		snName := "5G:mnc" + c.MNC + ".mcc" + c.MCC + ".3gppnetwork.org"
-		if len(c.MNC) == 2 {
-			snName = "5G:mnc0" + c.MNC + ".mcc" + c.MCC + ".3gppnetwork.org"
+		// direct state probes of the key derivation: a sequence of derivations in one process (different
+		// subscribers one after the other), for algorithm identifiers that cannot complete a registration too
+		probes, _ := s.Rig["probes"].([]interface{})
+		for i, pv := range probes {
+			p := pv.(map[string]interface{})
+			str := func(k string) string { v, _ := p[k].(string); return v }
+			ue := tglib.NewRanUeContext("imsi-"+str("imsi"), 1, uint8(num(p, "nea", 0)), uint8(num(p, "nia", 2)))
+			ue.AuthenticationSubs = tglib.GetAuthSubscription(str("k"), str("opc"), str("op"))
+			rnd, _ := hex.DecodeString(str("rand"))
+			autnB, _ := hex.DecodeString(str("autn"))
+			var autn [16]byte
+			copy(autn[:], autnB)
+			mcc, mnc := str("mcc"), str("mnc")
+			snName := "5G:mnc" + mnc + ".mcc" + mcc + ".3gppnetwork.org"
+			if len(mnc) == 2 {
+				snName = "5G:mnc0" + mnc + ".mcc" + mcc + ".3gppnetwork.org"
+			}
+			res := ue.DeriveRESstarAndSetKey(ue.AuthenticationSubs, autn, rnd, snName, mnc, mcc)
+			w.Log(world.Event{Ev: "ctx", I: i, UE: 0, Info: map[string]interface{}{"res_star": hex.EncodeToString(res), "kamf": hex.EncodeToString(ue.Kamf),
+				"knasint": hex.EncodeToString(ue.KnasInt[:]), "knasenc": hex.EncodeToString(ue.KnasEnc[:])}})
 		}
-		res := ue.DeriveRESstarAndSetKey(ue.AuthenticationSubs, autn, rnd, snName, c.MNC, c.MCC)
-		w.Log(world.Event{Ev: "ctx", UE: 0, Info: map[string]interface{}{"res_star": hex.EncodeToString(res), "kamf": hex.EncodeToString(ue.Kamf),
-			"knasint": hex.EncodeToString(ue.KnasInt[:]), "knasenc": hex.EncodeToString(ue.KnasEnc[:])}})
 		os.Exit(0)
 	}
 
